@@ -9,7 +9,10 @@ import time
 def main():
     tier = sys.argv[1] if len(sys.argv) > 1 and sys.argv[1] in ("quick", "thorough") else "quick"
     only = [a for a in sys.argv[1:] if a not in ("quick", "thorough")]
-    man = json.load(open("/verif/MANIFEST.json"))
+    import os
+
+    root = os.path.dirname(os.path.dirname(os.path.abspath(__file__)))   # /verif, or a snapshot of it (vp run)
+    man = json.load(open(os.path.join(root, "MANIFEST.json")))
     bad = 0
     for c in man["checks"]:
         pid = c["property_id"]
@@ -17,7 +20,7 @@ def main():
             continue
         t0 = time.time()
         cmd = c["quick_cmd"] if tier == "quick" else c["thorough_cmd"]
-        p = subprocess.run(cmd, shell=True, cwd="/verif", capture_output=True, text=True)
+        p = subprocess.run(cmd, shell=True, cwd=root, capture_output=True, text=True)
         lines = [l for l in p.stdout.splitlines() if l.startswith(("OK", "VIOLATION", "KNOWN", "SPEC-DRIFT"))]
         print(f"{pid} exit={p.returncode} {time.time() - t0:.0f}s {' | '.join(lines)[:300]}", flush=True)
         if p.returncode != 0:
